@@ -541,6 +541,17 @@ func main() {
 				twoD++
 			}
 		}
+		// length: the sum over all members, whatever their dimension (a line next to a polygon still has its length)
+		{
+			sum := 0.0
+			for _, m := range col {
+				sum += planar.Length(m)
+			}
+			if l := planar.Length(col); l != sum && math.Abs(l-sum) > 1e-12*math.Max(l, sum) {
+				c.Failf("collection-kinds-length", "Length(collection) = %v, its members alone add up to %v | transform=%q collection=%v", l, sum, transforms[t].name, col)
+				return
+			}
+		}
 		if twoD == 0 {
 			return // lower-dimensional collections are the business of the next part
 		}
